@@ -16,12 +16,16 @@
 (***************************************************************************)
 EXTENDS Naturals, FiniteSets, Sequences, TLC
 
-CONSTANTS N, PA, PB, SIS
+CONSTANTS N, PA, PB, SIS,
+          Directed   \* TRUE: the contact network is a digraph, u can infect v along an arc u -> v only
 Node == 1..N
-NP   == (N * (N - 1)) \div 2
-PairIdx(u, v) == LET a == IF u < v THEN u ELSE v
-                     b == IF u < v THEN v ELSE u
-                 IN ((a - 1) * N - ((a - 1) * a) \div 2) + (b - a)
+NP   == IF Directed THEN N * (N - 1) ELSE (N * (N - 1)) \div 2
+UPairIdx(u, v) == LET a == IF u < v THEN u ELSE v
+                      b == IF u < v THEN v ELSE u
+                  IN ((a - 1) * N - ((a - 1) * a) \div 2) + (b - a)
+\* ordered pairs (u,v), u # v, in lexicographic order
+DPairIdx(u, v) == (u - 1) * (N - 1) + (IF v < u THEN v ELSE v - 1)
+PairIdx(u, v) == IF Directed THEN DPairIdx(u, v) ELSE UPairIdx(u, v)
 
 VARIABLES w, st, ev
 vars == <<w, st, ev>>
